@@ -398,3 +398,21 @@ Proof.
   cbv zeta. unfold blk. cbn [Api.b_usable Api.b_req]. unfold MI_SEGMENT_SLICE_SIZE in *.
   repeat split; try assumption; lia.
 Qed.
+
+(* ... in every state reachable from the empty memory by any sequence of operations *)
+Theorem compose_live_disjoint_reachable m q1 b1 q2 b2 : reachable m ->
+  Api.lookup (abs m) q1 = Some b1 -> Api.lookup (abs m) q2 = Some b2 -> q1 <> q2 ->
+  q1 + Api.b_usable b1 <= q2 \/ q2 + Api.b_usable b2 <= q1.
+Proof. intros H. apply compose_live_disjoint. apply compose_reachable_inv. assumption. Qed.
+
+Theorem compose_live_inside_reachable m q b : reachable m -> Api.lookup (abs m) q = Some b ->
+  exists cs cp c,
+    In cs m /\ In cp (cs_pages cs) /\ In (cp_idx cp, c) (used_spans (fst (cs_st cs))) /\
+    let start := fst (page_area cs (cp_idx cp)) in let psize := snd (page_area cs (cp_idx cp)) in
+    let span_lo := cs_base cs + cp_idx cp * MI_SEGMENT_SLICE_SIZE in
+    let span_hi := cs_base cs + (cp_idx cp + c) * MI_SEGMENT_SLICE_SIZE in
+    start <= q /\ q + Api.b_usable b <= start + psize /\
+    span_lo <= start /\ start + psize = span_hi /\
+    cs_base cs < span_lo /\ span_hi <= cs_base cs + seg_size cs /\
+    Api.b_req b <= Api.b_usable b /\ Api.b_usable b = bsize (cp_page cp).
+Proof. intros H. apply compose_live_inside. apply compose_reachable_inv. assumption. Qed.
